@@ -521,6 +521,28 @@ theorem f9_valid_edit_accepted {T W : Type} (parse : Lines → Option W) (guard 
     rw [e]; exact ⟨rfl, by rw [hs]⟩
   · simp only at hf; rw [hs, h2] at hf; cases hf
 
+/-! ## the end walk passes through nodes without a position -/
+
+/-- **tail_through_match_case**: `_set_end_pos(new, old)` does not stop at an ancestor that has no position (a
+`match_case` between an inner and an outer `Match`): every located ancestor above it that ended at `old` and is a last
+child gets the new end too; an ancestor with a following sibling ends the walk.  (kinds: 8 Match, 9 match_case,
+4 FunctionDef, 0 Module) -/
+theorem tail_through_match_case :
+    (setEndPosFrom (6, 20) (6, 27)
+      [{ kind := 8, pos := some ⟨5, 8, 6, 27⟩, left := [], right := [] },
+       { kind := 9, pos := none, left := [], right := [] },
+       { kind := 8, pos := some ⟨2, 4, 6, 27⟩, left := [], right := [] },
+       { kind := 4, pos := some ⟨1, 0, 6, 27⟩, left := [], right := [] },
+       { kind := 0, pos := none, left := [], right := [.mk 3 (some ⟨8, 0, 8, 1⟩) []] }]).map (fun f => f.pos.map (fun p => (p.elno, p.ecol)))
+    = [some (6, 20), none, some (6, 20), some (6, 20), none] := by
+  rfl
+
+/-- `rectInRegion` unpacked: the first and last line of the rectangle are lines of the region (what `wrapper_cols` and
+the truncation at `pend` rely on). -/
+theorem rect_in_region_lines (f : Facts) (r : Rect) (h : rectInRegion f r = true) : f.pln ≤ r.ln ∧ r.endLn ≤ f.pendLn := by
+  simp only [rectInRegion, Bool.and_eq_true, Bool.or_eq_true, decide_eq_true_eq, beq_iff_eq] at h
+  omega
+
 /-! ## header-only reparse: the old blocks on the new header -/
 
 /-- **header_graft_keeps_old_blocks**: after a header-only reparse every block field the old node has — EMPTY lists
